@@ -12,15 +12,19 @@ package trace
 import (
 	"context"
 	"fmt"
+	"math"
 	"sort"
+	"sync"
 	"sync/atomic"
 	"time"
 
 	"github.com/apache/skywalking-banyandb/api/common"
+	modelv1 "github.com/apache/skywalking-banyandb/api/proto/banyandb/model/v1"
 	"github.com/apache/skywalking-banyandb/banyand/internal/sidx"
 	"github.com/apache/skywalking-banyandb/banyand/protector"
 	"github.com/apache/skywalking-banyandb/pkg/convert"
 	"github.com/apache/skywalking-banyandb/pkg/fs"
+	"github.com/apache/skywalking-banyandb/pkg/index"
 	"github.com/apache/skywalking-banyandb/pkg/logger"
 	"github.com/apache/skywalking-banyandb/pkg/pipeline/sdk"
 	pbv1 "github.com/apache/skywalking-banyandb/pkg/pb/v1"
@@ -67,10 +71,17 @@ type C13Table struct {
 	// mid is executed (once) by the introducer stand-in after it received a merger introduction and before it
 	// applies it: the real loop's select may serve tst.introductions first.
 	mid func()
-	// Rejected counts merger introductions rejected by the pre-publication revalidation.
-	Rejected int
-	// Introduced counts merger introductions applied.
-	Introduced int
+	// mu is held by the stand-in while it handles one introduction, so that Counters() observes completed handling.
+	mu         sync.Mutex
+	rejected   int // merger introductions rejected by the pre-publication revalidation
+	introduced int // merger introductions applied
+}
+
+// Counters returns (merger introductions applied, merger introductions rejected by the pre-publication revalidation).
+func (v *C13Table) Counters() (int, int) {
+	v.mu.Lock()
+	defer v.mu.Unlock()
+	return v.introduced, v.rejected
 }
 
 // C13Open opens (or reopens) a table rooted at dir.
@@ -108,6 +119,13 @@ func C13Open(dir string, cfg C13Cfg) *C13Table {
 
 func (v *C13Table) nextEpoch() uint64 { return v.epoch.Add(1) - 1 }
 
+// barrier waits until the stand-in has finished handling the introduction it is working on (the sender is released
+// when `applied` is closed, which happens before the stand-in's gc.clean()).
+func (v *C13Table) barrier() {
+	v.mu.Lock()
+	v.mu.Unlock() //nolint:staticcheck // empty critical section is the point
+}
+
 // introducer stands in for introducerLoop: same introduce* calls, same gc.clean() placement.
 func (v *C13Table) introducer() {
 	defer close(v.done)
@@ -116,20 +134,27 @@ func (v *C13Table) introducer() {
 		case <-v.stop:
 			return
 		case next := <-v.flushCh:
+			v.mu.Lock()
 			v.tst.introduceFlushed(next, v.nextEpoch())
 			v.tst.gc.clean()
+			v.mu.Unlock()
 		case next := <-v.mergeCh:
+			v.mu.Lock()
 			if f := v.mid; f != nil {
 				v.mid = nil
 				f()
 			}
-			v.tst.introduceMerged(next, v.nextEpoch())
-			if next.guardRejected {
-				v.Rejected++
+			// next may be recycled by the sender as soon as applied is closed: do not read it afterwards; whether it
+			// was published is recovered from the snapshot (a rejected introduction leaves the epoch unchanged).
+			ep := v.nextEpoch()
+			v.tst.introduceMerged(next, ep)
+			if v.tst.currentEpoch() == ep {
+				v.introduced++
 			} else {
-				v.Introduced++
+				v.rejected++
 			}
 			v.tst.gc.clean()
+			v.mu.Unlock()
 		}
 	}
 }
@@ -196,6 +221,7 @@ func (v *C13Table) Flush() bool {
 	defer snp.decRef()
 	before := v.tst.currentEpoch()
 	v.tst.flush(snp, v.flushCh)
+	v.barrier()
 	return v.tst.currentEpoch() != before
 }
 
@@ -206,6 +232,7 @@ func (v *C13Table) MergeMem() (merged bool, err error) {
 		return false, nil
 	}
 	defer snp.decRef()
+	defer v.barrier()
 	defer func() {
 		if r := recover(); r != nil {
 			err = fmt.Errorf("merge panicked: %v", r)
@@ -251,6 +278,7 @@ func (v *C13Table) Merge(ids []uint64, lane string) (err error) {
 	}
 	tst.inFlightMu.Unlock()
 	req := &mergeDispatchRequest{parts: dst, toBeMerged: toBeMerged, typ: mergeTypeFile, lane: lane}
+	defer v.barrier()
 	defer tst.releaseDispatchRequest(req)
 	defer func() {
 		if r := recover(); r != nil {
@@ -264,6 +292,7 @@ func (v *C13Table) Merge(ids []uint64, lane string) (err error) {
 
 // Finalize runs one finalize round with the configured samplers.
 func (v *C13Table) Finalize(graceNs int64) (committed bool, err error) {
+	defer v.barrier()
 	defer func() {
 		if r := recover(); r != nil {
 			err = fmt.Errorf("finalize panicked: %v", r)
@@ -412,29 +441,40 @@ func (v *C13Table) SidxScan() ([]C13SidxRow, error) {
 	return out, nil
 }
 
-// SidxOrdered runs the ordered secondary-index query (the stage that feeds trace ids to ordered trace queries) and
-// returns the trace ids in the order produced.
-func (v *C13Table) SidxOrdered() ([]string, error) {
-	var out []string
-	for _, inst := range v.tst.getAllSidx() {
-		resps, err := inst.QuerySync(context.Background(), sidx.QueryRequest{SeriesIDs: []common.SeriesID{C13Series}})
-		if err != nil {
-			return nil, err
-		}
-		for _, r := range resps {
-			if r.Error != nil {
-				return nil, r.Error
-			}
-			for i := range r.Data {
-				id, derr := decodeTraceID(r.Data[i])
-				if derr != nil {
-					id = fmt.Sprintf("undecodable:%x", r.Data[i])
-				}
-				out = append(out, id)
-			}
-		}
+// QueryOrdered runs the ordered (secondary-index driven) arm of trace.Query against this table:
+// streamSIDXTraceBatches (real sidx StreamingQuery, trace-id de-duplication) -> startBlockScanStage ->
+// queryResult.Pull.  It returns the trace ids in the order produced and the span ids per trace.
+func (v *C13Table) QueryOrdered() ([]string, map[string][]string, error) {
+	inst, ok := v.tst.getSidx(C13SidxName)
+	if !ok {
+		return nil, map[string][]string{}, nil
 	}
-	return out, nil
+	t := &trace{pm: protector.Nop{}, l: v.tst.l}
+	ctx, cancel := context.WithCancel(context.Background())
+	minKey, maxKey := int64(math.MinInt64), int64(math.MaxInt64)
+	req := sidx.QueryRequest{SeriesIDs: []common.SeriesID{C13Series}, MinKey: &minKey, MaxKey: &maxKey,
+		Order: &index.OrderBy{Sort: modelv1.Sort_SORT_ASC}}
+	qo := queryOptions{}
+	result := queryResult{ctx: ctx, cancel: cancel, keys: map[string]int64{}}
+	batchCh, streamDone := t.streamSIDXTraceBatches(ctx, []sidx.SIDX{inst}, req, 0)
+	result.streamDone = streamDone
+	result.cursorBatchCh = t.startBlockScanStage(ctx, []*tsTable{v.tst}, qo, batchCh)
+	traceQueryResultTracker.Acquire(&result)
+	defer result.Release()
+	var order []string
+	spans := map[string][]string{}
+	for {
+		r := result.Pull()
+		if r == nil {
+			break
+		}
+		if r.Error != nil {
+			return nil, nil, r.Error
+		}
+		order = append(order, r.TID)
+		spans[r.TID] = append(spans[r.TID], r.SpanIDs...)
+	}
+	return order, spans, nil
 }
 
 // Close stops the stand-in and closes the table.
